@@ -106,7 +106,7 @@ func genTenant(r *core.PRNG) TenantSpec {
 				t.Ops = append(t.Ops, MuxOp{Op: "packet", H: -1, Pkt: pk})
 				continue
 			}
-			ps := genPESSpec(r, false)
+			ps := genPESSpec(r, r.Bool())
 			op := MuxOp{Op: "data", H: 0, PES: &ps, Len: genLen(r, ps.HeaderSize(), 0, false), Tag: 1 + i}
 			if r.Chance(1, 3) {
 				op.AF = genAF(r, 8, false)
@@ -231,17 +231,39 @@ func runTenant(spec *TenantSpec, yield func()) (res *tenantResult) {
 				}
 				frame, payload := guardedPayload(op.Tag, op.Len)
 				d := &astits.MuxerData{PID: pids[op.H], AdaptationField: AFToAstits(op.AF), PES: &astits.PESData{Data: payload, Header: spec0.ToAstits()}}
+				// every other byte slice the caller hands over sits in a larger buffer of its own too
+				var gs []*guarded
+				if oh := d.PES.Header.OptionalHeader; oh != nil {
+					gs = append(gs, guardSlice(&oh.PrivateData), guardSlice(&oh.Extension2Data))
+				}
+				if d.AdaptationField != nil {
+					gs = append(gs, guardSlice(&d.AdaptationField.TransportPrivateData))
+				}
 				n, err := m.WriteData(d)
 				res.keys = append(res.keys, fmt.Sprintf("data:%d:%s", n, errClass(err)))
 				res.live = append(res.live, nil)
 				if !guardIntact(frame, op.Tag, op.Len) && res.payload == "" {
 					res.payload = fmt.Sprintf("WriteData call %d modified the caller's buffer (payload bytes or the bytes around them)", i)
 				}
+				for _, g := range gs {
+					if !g.intact() && res.payload == "" {
+						res.payload = fmt.Sprintf("WriteData call %d modified a byte slice of the caller's header / adaptation field (or the bytes around it)", i)
+					}
+				}
 			case "packet":
 				pk := op.Pkt.ToAstits()
 				frame, payload := guardedPayload(op.Pkt.Tag, op.Pkt.PayloadLen)
 				pk.Payload = payload
+				var gs []*guarded
+				if pk.AdaptationField != nil {
+					gs = append(gs, guardSlice(&pk.AdaptationField.TransportPrivateData))
+				}
 				n, err := m.WritePacket(pk)
+				for _, g := range gs {
+					if !g.intact() && res.payload == "" {
+						res.payload = fmt.Sprintf("WritePacket call %d modified a byte slice of the caller's adaptation field (or the bytes around it)", i)
+					}
+				}
 				res.keys = append(res.keys, fmt.Sprintf("packet:%d:%s", n, errClass(err)))
 				res.live = append(res.live, nil)
 				if !guardIntact(frame, op.Pkt.Tag, op.Pkt.PayloadLen) && res.payload == "" {
@@ -618,4 +640,40 @@ func guardIntact(frame []byte, tag, n int) bool {
 		}
 	}
 	return bytes.Equal(frame[guardLen:guardLen+n], Payload(tag, n))
+}
+
+// guarded is a caller-owned byte slice placed inside a larger buffer with sentinel bytes
+// before and after it (so the slice handed to the library has spare capacity).
+type guarded struct {
+	frame, content []byte
+	n              int
+}
+
+// guardSlice re-homes *p (if non-empty) into a guarded frame.
+func guardSlice(p *[]byte) *guarded {
+	g := &guarded{}
+	if p == nil || len(*p) == 0 {
+		return g
+	}
+	g.n = len(*p)
+	g.content = append([]byte{}, *p...)
+	g.frame = make([]byte, guardLen+g.n+guardLen)
+	for i := range g.frame {
+		g.frame[i] = 0xEE
+	}
+	copy(g.frame[guardLen:], g.content)
+	*p = g.frame[guardLen : guardLen+g.n]
+	return g
+}
+
+func (g *guarded) intact() bool {
+	if g.frame == nil {
+		return true
+	}
+	for i := 0; i < guardLen; i++ {
+		if g.frame[i] != 0xEE || g.frame[guardLen+g.n+i] != 0xEE {
+			return false
+		}
+	}
+	return bytes.Equal(g.frame[guardLen:guardLen+g.n], g.content)
 }
